@@ -94,9 +94,16 @@ def gen(rng, n_cases, max_n=40):
         M = int(rng.choice([2, 2, 3, 3, 4, 5]))
         # sizes: anywhere up to max_n, or right around the number of objectives (where the short-front rules switch)
         N = int(rng.randint(1, max_n + 1)) if rng.randint(3) else int(rng.randint(1, M + 4))
-        F = gen_front(rng, N, M)
+        big = t % 97 == 11 and t < 97 * 6
+        if big:
+            # a few fronts just above the sizes at which blocked code paths usually switch (continuous, two / three objectives)
+            M = int(rng.choice([2, 3]))
+            N = int([130, 260, 140, 300, 135, 520][(t // 97) % 6] + rng.randint(0, 8))
+            F = gen_front_kind(rng, N, M, 0)
+        else:
+            F = gen_front(rng, N, M)
         n = len(F)
-        k = rng.randint(6)
+        k = rng.randint(6) if not big else rng.randint(2)
         # removals: none, one, anything, (almost) everything, around N - M (where the clamping rules of the engines apply)
         n_remove = 0 if k == 0 else 1 if k == 1 else int(rng.randint(0, n + 1)) if k in (2, 3) else \
             max(0, n - int(rng.randint(0, 3))) if k == 4 else max(0, n - M + int(rng.randint(-1, 2)))
@@ -331,7 +338,13 @@ def run_batch(cases):
                     if c.get("reuse") and F.ndim == 2 and hasattr(op_, "do"):
                         op_.do(warm_front(c["label"], F.shape[1]), n_remove=0)
                         rec.tags.add("operator-reused-across-objective-counts")
-                    r = np.array(op_.do(Fc, n_remove=c["n_remove"]), dtype=float)
+                    r_live = op_.do(Fc, n_remove=c["n_remove"])
+                    r = np.array(r_live, dtype=float)
+                    if c.get("reuse") and F.ndim == 2 and hasattr(op_, "do") and len(F) > 0:
+                        # the same operator serves another front of the same shape while the caller still holds the result
+                        op_.do(np.ascontiguousarray(F[::-1] * 0.5 + 0.25), n_remove=c["n_remove"])
+                        if not bits_equal(np.array(r_live, dtype=float), r):
+                            rec.frames.append("a result the crowding function had already returned changed when the operator was used again")
                     if not bits_equal(Fc, F):
                         rec.frames.append("the caller's array was modified by the crowding function")
                 else:
